@@ -13,7 +13,7 @@ from harness.runner import Check
 from props import _cli
 
 MODES = {"full": [], "edits": ["-e"], "digest": ["-d"]}
-LOOKS = {"plain": ["--no-color"], "color": ["--color"], "html": ["--html"]}
+LOOKS = {"plain": ["--no-color"], "color": ["--color"], "html": ["--html"], "html+color": ["--html", "--color"]}
 COND = {"normal": [], "condensed": ["-j"]}
 
 
@@ -66,18 +66,31 @@ def document_sets(r, n):
                 s[t] = (dump(rows_a), dump(rows_b))
             elif t == "plist":
                 # (a plist can hold bytes: <data>)
-                pa = [a, b"abc\x00\xff", {"d": b"x\ny"}] if keep_null else a
-                pb = [b, b"abd\x00", {"d": b"x\nz", "e": b""}] if keep_null else b
+                import datetime
+                pa = [a, b"abc\x00\xff", {"d": b"x\ny"}] if keep_null else [a, datetime.datetime(2020, 1, 1, 10, 0, 0), {"when": datetime.datetime(1999, 12, 31, 23, 59, 59)}]
+                pb = [b, b"abd\x00", {"d": b"x\nz", "e": b""}] if keep_null else [b, datetime.datetime(2020, 1, 1, 11, 0, 0), {"when": datetime.datetime(1999, 12, 31, 23, 59, 59), "n": 1}]
                 s[t] = (_cli.serialise(t, pa, "A"), _cli.serialise(t, pb, "B"))
             elif not keep_null:
                 # no nulls here (null as plist is known finding F27 and would end the run before anything else is printed),
                 # but values no plist FILE could hold: integers beyond 64 bits, extreme floats, non-ASCII text
                 xa = [a, 2 ** 64, -(2 ** 63) - 1, 1e300, "caf\u00e9 \U0001F600"]
                 xb = [b, 2 ** 64 + 1, -(2 ** 63) - 1, 1e-300, "cafe \U0001F600"]
+                if t == "yaml":
+                    # the native date types of YAML: timestamps with and without offset, dates - also as a mapping key (F32)
+                    import datetime
+                    tz = datetime.timezone(datetime.timedelta(hours=2))
+                    xa = xa + [datetime.date(2002, 1, 1), datetime.datetime(2001, 12, 14, 21, 59, 43), {datetime.date(2003, 3, 3): "k"},
+                               datetime.datetime(2001, 12, 14, 21, 59, 43, tzinfo=tz)]
+                    xb = xb + [datetime.date(2002, 1, 2), datetime.datetime(2001, 12, 14, 21, 59, 44), {datetime.date(2003, 3, 4): "k"},
+                               datetime.datetime(2001, 12, 14, 21, 59, 43, tzinfo=datetime.timezone.utc)]
                 if t == "pickle":
                     xa, xb = xa + [b"abc\x00\xff", {"d": b"x\ny"}], xb + [b"abd\x00", {"d": b"x\nz"}]      # bytes values
                     # sets (a plain multiset node: only pickles of protocol >= 4 and Python objects produce one), empty and not,
                     # and a mapping REPLACED by a set / a set by a mapping (F31)
+                    import collections
+                    # objects that unpickle through item assignments (a subscript statement in the decompiled module)
+                    xa = xa + [collections.OrderedDict(a=1, b=[1, 2]), collections.defaultdict(list, {"k": [1]})]
+                    xb = xb + [collections.OrderedDict(a=2, b=[1, 3]), collections.defaultdict(list, {"k": [1, 2], "j": []})]
                     xa = xa + [{1, 2, 3}, frozenset(["x"]), set(), {"tags": {1, 2}, "m": {"k": 1, "j": [1]}, "s": {3}}]
                     xb = xb + [{1, 2, 4}, frozenset(["x", "y"]), set(), {"tags": {2}, "m": {1, 2}, "s": {"k": 3}, "n": {5}}]
                 s[t] = (_cli.serialise(t, xa, "A"), _cli.serialise(t, xb, "B"))
